@@ -3,6 +3,7 @@ package c20
 import (
 	"fmt"
 	"math"
+	"sort"
 	"strings"
 	"testing"
 
@@ -77,24 +78,69 @@ func sameStrings(a, b []string) bool {
 	return true
 }
 
-// checkSet: got is exactly the mathematical set want, sorted by key,
-// duplicate-free, and its scalar accessors agree.
-func checkSet(t *rapid.T, what string, got digest.Set, want mset) {
+// ranks is the package's own total order over the digests of one case:
+// the position of every digest of the universe in ONE set that holds them
+// all. The property says "sorted" without naming the order (the unchanged
+// code orders by the packed string, which is also the instance-aware key);
+// what every merge-based operation relies on, and what is asserted, is that
+// ALL sets of the package list their elements in one and the same strict
+// order.
+type ranks map[string]int
+
+func mkRanks(t *rapid.T, universe []digest.Digest) ranks {
+	sb := digest.NewSetBuilder(0)
+	want := mset{}
+	for _, d := range universe {
+		sb = sb.Add(d)
+		want[idOf(d)] = true
+	}
+	items := sb.Build().Items()
+	r := ranks{}
+	for i, d := range items {
+		if _, dup := r[idOf(d)]; dup {
+			t.Fatalf("set of the whole universe lists %q twice: %q", idOf(d), keysOf(items))
+		}
+		r[idOf(d)] = i
+	}
+	if len(r) != len(want) {
+		t.Fatalf("set of the whole universe: got %q, want the set %q", keysOf(items), sortedKeys(want))
+	}
+	for k := range want {
+		if _, ok := r[k]; !ok {
+			t.Fatalf("set of the whole universe: got %q, want the set %q", keysOf(items), sortedKeys(want))
+		}
+	}
+	return r
+}
+
+// idOf is the identity of a digest in the mathematical model: the
+// instance-aware key (injective by the key clause of the property, which
+// TestC20KeyPairs checks).
+func idOf(d digest.Digest) string { return d.GetKey(digest.KeyWithInstance) }
+
+// checkSet: got is exactly the mathematical set want, sorted (in the
+// package's order, see ranks), duplicate-free, and its scalar accessors
+// agree.
+func checkSet(t *rapid.T, rk ranks, what string, got digest.Set, want mset) {
 	items := got.Items()
 	ks := keysOf(items)
 	for i := 1; i < len(ks); i++ {
-		if !(ks[i-1] < ks[i]) {
+		a, aok := rk[ks[i-1]]
+		b, bok := rk[ks[i]]
+		if aok && bok && !(a < b) {
 			t.Fatalf("%s: elements %d and %d out of order or duplicated: %q, %q (all: %q)", what, i-1, i, ks[i-1], ks[i], ks)
 		}
 	}
-	if w := sortedKeys(want); !sameStrings(ks, w) {
+	gs := append([]string(nil), ks...)
+	sort.Strings(gs)
+	if w := sortedKeys(want); !sameStrings(gs, w) {
 		t.Fatalf("%s: got %q, want the set %q", what, ks, w)
 	}
 	if got.Length() != len(want) || got.Empty() != (len(want) == 0) {
 		t.Fatalf("%s: Length %d Empty %v for a set of %d elements", what, got.Length(), got.Empty(), len(want))
 	}
 	first, ok := got.First()
-	if ok != (len(want) > 0) || (ok && first.String() != ks[0]) || (!ok && first != digest.BadDigest) {
+	if ok != (len(want) > 0) || (ok && first != items[0]) {
 		t.Fatalf("%s: First() = %q, %v for %q", what, first.String(), ok, ks)
 	}
 }
@@ -127,9 +173,18 @@ func TestC20Sets(t *testing.T) {
 			}
 			d := s.mk(t)
 			universe = append(universe, d)
-			info[d.String()] = s
+			info[idOf(d)] = s
 			c.Add(int(s.fn), s.hash, s.size, s.inst())
 		}
+
+		rk := mkRanks(t, universe)
+		keyOrder := true
+		for a, ra := range rk {
+			for b, rb := range rk {
+				keyOrder = keyOrder && ((a < b) == (ra < rb))
+			}
+		}
+		c.ClassIf(!keyOrder, "set_order_is_not_key_order")
 
 		var snaps []snapshot
 		track := func(name string, s digest.Set) {
@@ -148,13 +203,13 @@ func TestC20Sets(t *testing.T) {
 			m := mset{}
 			for _, j := range idx {
 				sb = sb.Add(universe[j])
-				m[universe[j].String()] = true
+				m[idOf(universe[j])] = true
 				if sb.Length() != len(m) {
 					t.Fatalf("SetBuilder.Length() = %d after adding %d distinct digests", sb.Length(), len(m))
 				}
 			}
 			s := sb.Build()
-			checkSet(t, fmt.Sprintf("Build of set %d", i), s, m)
+			checkSet(t, rk, fmt.Sprintf("Build of set %d", i), s, m)
 			if again := sb.Build(); !sameStrings(keysOf(again.Items()), keysOf(s.Items())) {
 				t.Fatalf("building the same SetBuilder twice gave %q then %q", keysOf(s.Items()), keysOf(again.Items()))
 			}
@@ -169,16 +224,16 @@ func TestC20Sets(t *testing.T) {
 		if k > 0 {
 			sb := digest.NewSetBuilder(0)
 			for _, d := range family[0].Items() {
-				sb.Add(d)
+				sb = sb.Add(d)
 			}
 			before := sb.Build()
 			track("set built before a further Add", before)
-			sb.Add(universe[rapid.IntRange(0, n-1).Draw(t, "late_add")])
+			sb = sb.Add(universe[rapid.IntRange(0, n-1).Draw(t, "late_add")])
 			sb.Build()
 		}
-		checkSet(t, "EmptySet", digest.EmptySet, mset{})
-		checkSet(t, "Build of nothing", digest.NewSetBuilder(0).Build(), mset{})
-		checkSet(t, "ToSingletonSet", universe[0].ToSingletonSet(), mset{universe[0].String(): true})
+		checkSet(t, rk, "EmptySet", digest.EmptySet, mset{})
+		checkSet(t, rk, "Build of nothing", digest.NewSetBuilder(0).Build(), mset{})
+		checkSet(t, rk, "ToSingletonSet", universe[0].ToSingletonSet(), mset{idOf(universe[0]): true})
 
 		// Union of the whole family, of a permutation, and with repeats.
 		all := mset{}
@@ -186,15 +241,15 @@ func TestC20Sets(t *testing.T) {
 			all = all.union(m)
 		}
 		u := digest.GetUnion(family)
-		checkSet(t, "GetUnion of the family", u, all)
+		checkSet(t, rk, "GetUnion of the family", u, all)
 		track("union", u)
 		if k >= 2 {
 			perm := rapid.Permutation(family).Draw(t, "perm")
-			checkSet(t, "GetUnion of the permuted family", digest.GetUnion(perm), all)
-			checkSet(t, "GetUnion of the family listed twice", digest.GetUnion(append(append([]digest.Set(nil), family...), perm...)), all)
+			checkSet(t, rk, "GetUnion of the permuted family", digest.GetUnion(perm), all)
+			checkSet(t, rk, "GetUnion of the family listed twice", digest.GetUnion(append(append([]digest.Set(nil), family...), perm...)), all)
 		}
-		checkSet(t, "GetUnion of no sets", digest.GetUnion(nil), mset{})
-		checkSet(t, "GetUnion of empty sets", digest.GetUnion([]digest.Set{digest.EmptySet, {}}), mset{})
+		checkSet(t, rk, "GetUnion of no sets", digest.GetUnion(nil), mset{})
+		checkSet(t, rk, "GetUnion of empty sets", digest.GetUnion([]digest.Set{digest.EmptySet, {}}), mset{})
 
 		// Difference / intersection of every ordered pair (incl. a set with itself).
 		disjoint, subset := false, false
@@ -202,10 +257,10 @@ func TestC20Sets(t *testing.T) {
 			for j := 0; j < k; j++ {
 				onlyA, both, onlyB := digest.GetDifferenceAndIntersection(family[i], family[j])
 				what := fmt.Sprintf("GetDifferenceAndIntersection(set %d, set %d)", i, j)
-				checkSet(t, what+" only-A", onlyA, models[i].minus(models[j]))
-				checkSet(t, what+" both", both, models[i].intersect(models[j]))
-				checkSet(t, what+" only-B", onlyB, models[j].minus(models[i]))
-				checkSet(t, what+" re-united", digest.GetUnion([]digest.Set{onlyB, both, onlyA}), models[i].union(models[j]))
+				checkSet(t, rk, what+" only-A", onlyA, models[i].minus(models[j]))
+				checkSet(t, rk, what+" both", both, models[i].intersect(models[j]))
+				checkSet(t, rk, what+" only-B", onlyB, models[j].minus(models[i]))
+				checkSet(t, rk, what+" re-united", digest.GetUnion([]digest.Set{onlyB, both, onlyA}), models[i].union(models[j]))
 				if i != j && len(models[i]) > 0 && len(models[j]) > 0 {
 					disjoint = disjoint || both.Empty()
 					subset = subset || (onlyA.Empty() && !onlyB.Empty())
@@ -217,13 +272,13 @@ func TestC20Sets(t *testing.T) {
 				}
 			}
 			onlyA, both, onlyB := digest.GetDifferenceAndIntersection(family[i], digest.EmptySet)
-			checkSet(t, "difference with the empty set: only-A", onlyA, models[i])
-			checkSet(t, "difference with the empty set: both", both, mset{})
-			checkSet(t, "difference with the empty set: only-B", onlyB, mset{})
+			checkSet(t, rk, "difference with the empty set: only-A", onlyA, models[i])
+			checkSet(t, rk, "difference with the empty set: both", both, mset{})
+			checkSet(t, rk, "difference with the empty set: only-B", onlyB, mset{})
 			onlyA, both, onlyB = digest.GetDifferenceAndIntersection(u, family[i])
-			checkSet(t, "union minus member", onlyA, all.minus(models[i]))
-			checkSet(t, "union intersected with member", both, models[i])
-			checkSet(t, "member minus union", onlyB, mset{})
+			checkSet(t, rk, "union minus member", onlyA, all.minus(models[i]))
+			checkSet(t, rk, "union intersected with member", both, models[i])
+			checkSet(t, rk, "member minus union", onlyB, mset{})
 		}
 
 		// Partition and empty-blob filter of every set and of the union.
@@ -256,7 +311,7 @@ func TestC20Sets(t *testing.T) {
 				t.Fatalf("PartitionByInstanceName of %s %q: %d parts, want %d (%q)", what, keysOf(s.Items()), len(parts), len(order), order)
 			}
 			for pi, p := range parts {
-				checkSet(t, fmt.Sprintf("PartitionByInstanceName of %s, part %d (instance name %q)", what, pi, order[pi]), p, groups[order[pi]])
+				checkSet(t, rk, fmt.Sprintf("PartitionByInstanceName of %s, part %d (instance name %q)", what, pi, order[pi]), p, groups[order[pi]])
 				for _, d := range p.Items() {
 					if d.GetInstanceName().String() != order[pi] {
 						t.Fatalf("PartitionByInstanceName of %s: part %d holds %q, want only instance name %q", what, pi, d.String(), order[pi])
@@ -265,26 +320,26 @@ func TestC20Sets(t *testing.T) {
 			}
 			multiInstance = multiInstance || len(order) >= 2
 			manyInstances = manyInstances || len(order) >= 3
-			checkSet(t, "GetUnion of the partition of "+what, digest.GetUnion(parts), m)
+			checkSet(t, rk, "GetUnion of the partition of "+what, digest.GetUnion(parts), m)
 			// Appending to parts (as callers do through further set
 			// operations) must not write into the partitioned set.
 			for pi, p := range parts {
-				checkSet(t, "RemoveEmptyBlob of a part", p.RemoveEmptyBlob(), groups[order[pi]].intersect(nonEmpty))
+				checkSet(t, rk, "RemoveEmptyBlob of a part", p.RemoveEmptyBlob(), groups[order[pi]].intersect(nonEmpty))
 				if pi+1 < len(parts) {
 					a, b, cc := digest.GetDifferenceAndIntersection(p, parts[pi+1])
-					checkSet(t, "two parts are disjoint", b, mset{})
-					checkSet(t, "part minus next part", a, groups[order[pi]])
-					checkSet(t, "next part minus part", cc, groups[order[pi+1]])
+					checkSet(t, rk, "two parts are disjoint", b, mset{})
+					checkSet(t, rk, "part minus next part", a, groups[order[pi]])
+					checkSet(t, rk, "next part minus part", cc, groups[order[pi+1]])
 				}
 			}
 			ne := s.RemoveEmptyBlob()
-			checkSet(t, "RemoveEmptyBlob of "+what, ne, nonEmpty)
+			checkSet(t, rk, "RemoveEmptyBlob of "+what, ne, nonEmpty)
 			for _, d := range ne.Items() {
 				if d.GetSizeBytes() == 0 {
 					t.Fatalf("RemoveEmptyBlob of %s kept %q", what, d.String())
 				}
 			}
-			checkSet(t, "RemoveEmptyBlob twice", ne.RemoveEmptyBlob(), nonEmpty)
+			checkSet(t, rk, "RemoveEmptyBlob twice", ne.RemoveEmptyBlob(), nonEmpty)
 			if i == 0 {
 				track("RemoveEmptyBlob of "+what, ne)
 				for pi, p := range parts {
